@@ -89,7 +89,9 @@ PROPS = {
                 "(auto + 3 explicit) x the `earliest` input option (2, for entry points taking an Input) x the 21 public "
                 "search entry points of AhoCorasick plus two call histories "
                 "(find_overlapping / try_find_overlapping on an OverlappingState that accepted warm-up calls have "
-                "already advanced), for 6 fixed pattern lists "
+                "already advanced), and the same matrix over the three low-level automaton types used directly through "
+                "the Automaton trait (12 fallible entry points; the NFA types always have both start states, the DFA is "
+                "built under each start kind), for 6 fixed pattern lists "
                 "(no patterns, with/without the empty pattern, suffix-closed) plus seeded random lists, x several "
                 "haystacks and spans (including the empty haystack and the start=end+1 span). Each call is "
                 "classified accepted / error value / panic / late failure of a constructed iterator and compared "
@@ -99,7 +101,8 @@ PROPS = {
         "exhaustive": True,
         "exhaustive_note": "the configuration x API space is enumerated completely; pattern lists and haystacks are sampled",
         "stages": {"quick": NATIVE, "thorough": NATIVE},
-        "floors": {"quick": {"evaluations": 300_000, "cells_expect_reject": 150_000, "cells_expect_accept": 100_000},
+        "floors": {"quick": {"evaluations": 300_000, "cells_expect_reject": 150_000, "cells_expect_accept": 100_000,
+                             "cells_low_level_types": 2_000},
                    "thorough": {"evaluations": 5_000_000}},
         "timeout": T_DEFAULT,
     },
@@ -396,7 +399,8 @@ MANIFEST_TEXT = {
     },
     "C13": {
         "level_text": "The configuration x API matrix is finite and is enumerated completely on every run: each of the "
-                      "21 public search entry points is called and classified (accepted / error / panic / late failure) "
+                      "21 public search entry points (and of the 12 fallible ones of the low-level automaton types) is called and "
+                      "classified (accepted / error / panic / late failure) "
                       "and compared with the rejection predicate of the property; pattern lists and haystacks vary "
                       "to show independence from them.",
         "level_note": "Trusted base: the predicate transcribed from the property text, catch_unwind classification. "
